@@ -844,7 +844,8 @@ example :
 
 /-! ### round 6: how a file is SAVED — line terminators are not part of the description -/
 
-/-- regenerated: between `io.ReadAll` and `ParseHCL` the HCL front-end replaces CR LF by LF and does nothing else to the
+/-- regenerated: both front-ends read the WHOLE file (`io.ReadAll` of their own parameter: no `io.LimitReader`, no
+wrapper); between `io.ReadAll` and `ParseHCL` the HCL front-end replaces CR LF by LF and does nothing else to the
 text; the YAML front-end hands the text to `DecodeMap` as it was read (yaml.v2 — trusted — reads every line break of a
 block scalar as LF) -/
 theorem C16_text_steps :
@@ -933,10 +934,11 @@ example : saveMixed [true, true] "<<EOT\nline\nEOT".toList = "<<EOT\r\nline\r\nE
 example : replaceAll "\r\n".toList "\n".toList "a\r\r\nb\rc".toList = "a\r\nb\rc".toList ∧
     replaceAll "aa".toList "b".toList "aaa".toList = "ba".toList := by decide
 /-- `stepsOf` refuses what it does not know: a trim, a replacement of an empty string, a chain that does not start at
-`io.ReadAll` -/
-example : stepsOf [("io.ReadAll", []), ("strings.TrimSpace", [])] = none ∧
-    stepsOf [("io.ReadAll", []), ("strings.ReplaceAll", ["", "x"])] = none ∧
+`io.ReadAll`, a read through `io.LimitReader` (only the function's own parameter — the whole file — is admitted) -/
+example : stepsOf [("io.ReadAll", ["param:0"]), ("strings.TrimSpace", [])] = none ∧
+    stepsOf [("io.ReadAll", ["param:0"]), ("strings.ReplaceAll", ["", "x"])] = none ∧
     stepsOf [("strings.ReplaceAll", ["\r\n", "\n"])] = none ∧
-    stepsOf [("io.ReadAll", []), ("bytes.ReplaceAll", ["\r\n", "\n"])] = some [.replaceAll "\r\n" "\n"] := by decide
+    stepsOf [("io.ReadAll", ["io.LimitReader(file,MaxHCLFileSize)"]), ("strings.ReplaceAll", ["\r\n", "\n"])] = none ∧
+    stepsOf [("io.ReadAll", ["param:0"]), ("bytes.ReplaceAll", ["\r\n", "\n"])] = some [.replaceAll "\r\n" "\n"] := by decide
 
 end Pandora.Props.C16
